@@ -1,15 +1,16 @@
 """C01 — end-to-end at-least-once through Router pipelines under faults."""
 from . import common as C
 
-HEADER = 'From WM Require Import Base.Prelude Message.Model Handler.RouterHandle Pipeline.Model Corr.C01.\n'
+HEADER = 'From WM Require Import Base.Prelude Message.Model Handler.RouterHandle Pipeline.Model Pipeline.ImmModel Corr.C01.\n'
 ST = ['Unsettled', 'Acked', 'Nacked']
 FK = ['none', 'handler error', 'handler panic', 'publish error after j', 'publish panic after j']
 
 TRUSTED_BASE = [
-    'modelled, not verified: the pipeline model (Pipeline/Model.v) composes the component SPECIFICATIONS: the Router on one delivered copy = C02\'s model '
-    'Handler/RouterHandle.v (tied to router.go by C02\'s own check and, here, by comparing every per-delivery event trace), a GoChannel topic = "a publication '
-    'stays pending, a fresh unmodified copy is delivered again after every Nack, it leaves on Ack, one copy in flight per subscription" (proved of the detailed '
-    'per-subscription model GoChannel/Sub.v in Pipeline/SubLink.v; Sub.v itself is tied to pubsub.go by the C04/C05 schedule replay)',
+    'the pipeline model (Pipeline/Model.v) composes the component SPECIFICATIONS: the Router on one delivered copy = C02\'s model Handler/RouterHandle.v '
+    '(instantiated from the real C02 lemmas; tied to router.go by C02\'s check and, here, by comparing every per-delivery event trace); a GoChannel topic = '
+    '"publication pending until one copy is Acked, fresh copy per attempt, one in flight, immediate redelivery" - PROVED to be what the composition of the registry model '
+    'GoChannel/Reg.v with the send-loop model GoChannel/Sub.v does for an always-registered subscription (Pipeline/TopicRefine.v: step-for-step refinement); '
+    'not formal: the product of k such topics with the Router steps is not itself proved bisimilar to Pipeline/Model.v; Reg.v / Sub.v are tied to pubsub.go by the C04/C05/C07 schedule replay',
     'a delivery attempt is one atomic step of the model; the implementation\'s attempts are linearised by the order of handler entry (sound: the outputs of an attempt are '
     'accepted by the next topic after its handler was entered, and the next attempt of a stage starts after the previous copy was settled)',
     'the harness (fault-injecting handler and publisher wrappers, settlement watcher goroutines, exact quiescence detection by counting accepted/acked publications); '
@@ -103,6 +104,7 @@ def evaluate(pid, tag, data, res):
         res.count('kind=%s' % c['kind'])
         res.count('gochannel=%s%s buffer=%s' % ('persistent' if c['persistent'] else 'plain', '+blocking' if c['blocking'] else '', '0' if c['buffer'] == 0 else 'n'))
         res.count('routers=%s' % ('one' if c['one_router'] else 'k'))
+        if any(9 in row for row in c['fans']): res.count('with a passthrough handler (returns the consumed object)')
         nf = 0
         for d in c['log']:
             res.count('attempt: %s' % FK[d['fault']['kind']])
@@ -113,7 +115,7 @@ def evaluate(pid, tag, data, res):
         ndup = len(c['sink']) - len({(m['lin'], tuple(m['path'])) for m in c['sink']})
         res.count('duplicates at the sink=%s' % ('0' if ndup == 0 else '1+'))
         bad = [e for d in c['log'] for e in d['events'] if event_term(e) is None]
-        if bad or any('Publish with' in n or 'rejected' in n or 'source publish failed' in n for n in c['notes']):
+        if bad or any('Publish with' in n or 'rejected' in n or 'source publish failed' in n or 'closed Pub/Sub returned nil' in n for n in c['notes']):
             res.violations.append(dict(signature='C01/unexpected-observation', what='unexpected observation: %s %s' % (bad[:1], c['notes'][:2]), case=describe(c, True)))
             continue
         if any(('teardown hung' in n or 'router close' in n or 'Run did not return' in n) for n in c['notes']):
@@ -127,7 +129,7 @@ def evaluate(pid, tag, data, res):
         r = C.coq_eval(pid, 'cases_%s_%d' % (tag, part), HEADER + 'Definition cases : list c01_case := %s.\n' % C.coq_list([case_term(c) for c in chunk]),
                        [('R_mis', 'c01_mismatches cases'), ('R_log', 'c01_log_violations cases'),
                         ('R_inv', 'c01_invented_violations cases'), ('R_lost', 'c01_lost_violations cases'),
-                        ('R_red', 'c01_redelivery_violations cases')])
+                        ('R_red', 'c01_redelivery_violations cases'), ('R_imm', 'c01_immediate_violations cases')])
         vio = set()
         for i in r['R_log']:
             vio.add(i)
@@ -137,6 +139,9 @@ def evaluate(pid, tag, data, res):
         for i in r['R_inv']:
             vio.add(i)
             res.violations.append(dict(signature='C01/invented', what='a message arrived at the final topic that does not descend from a successfully published source message (lineage/path not derivable)', case=describe(chunk[i], True)))
+        for i in r['R_imm']:
+            vio.add(i)
+            res.violations.append(dict(signature='C01/redelivery-not-immediate', what='after a Nack another message was delivered to the stage before the Nacked one was redelivered (the Sender must keep the sending lock: one in flight)', case=describe(chunk[i], True)))
         for i in r['R_red']:
             vio.add(i)
             res.violations.append(dict(signature='C01/not-redelivered', what='a delivery attempt ended in a Nack and the same message was never attempted again at that stage although nothing is pending', case=describe(chunk[i], True)))
